@@ -151,7 +151,7 @@ func canon(t *sqlast.Tree) *sqlast.Tree {
 	for i, k := range t.Kids {
 		kids[i] = canon(k)
 	}
-	n := &sqlast.Tree{Kind: t.Kind, Kids: kids}
+	n := &sqlast.Tree{Kind: t.Kind, Kids: kids, Names: t.Names}
 	// second normalisation: a named bind variable `:name` (Vitess syntax, not client SQL of either database) is
 	// printed as the positional `?` on purpose (SQLVal.Format) and read back as `:v<position>`; placeholders are
 	// compared by position, except the mask names `:replacedN`, which are printed as they are.
